@@ -72,6 +72,10 @@ pub struct Ctx {
     pub prop: &'static str,
     /// thorough tier: props may scale structure sizes.
     pub thorough: bool,
+    /// By default a panic that happened during the case but was swallowed
+    /// (by a tokio task boundary, a catch_unwind inside the code under
+    /// test, ...) is reported as a violation. Set to true to disable.
+    pub allow_swallowed_panics: bool,
 }
 
 impl Ctx {
@@ -163,12 +167,23 @@ pub fn verif_root() -> PathBuf {
 }
 
 pub fn load_known() -> Vec<KnownFinding> {
-    let p = verif_root().join("known_findings.json");
-    let Ok(s) = std::fs::read_to_string(&p) else { return vec![] };
+    let mut all = load_known_file(&verif_root().join("known_findings.json"));
+    if let Ok(rd) = std::fs::read_dir(verif_root().join("known_findings.d")) {
+        let mut files: Vec<PathBuf> = rd.filter_map(|e| e.ok().map(|e| e.path())).filter(|p| p.extension().map(|e| e == "json").unwrap_or(false)).collect();
+        files.sort();
+        for f in files {
+            all.extend(load_known_file(&f));
+        }
+    }
+    all
+}
+
+fn load_known_file(p: &Path) -> Vec<KnownFinding> {
+    let Ok(s) = std::fs::read_to_string(p) else { return vec![] };
     let v: serde_json::Value = match serde_json::from_str(&s) {
         Ok(v) => v,
         Err(e) => {
-            eprintln!("known_findings.json unreadable: {e}");
+            eprintln!("{} unreadable: {e}", p.display());
             std::process::exit(2);
         }
     };
@@ -450,11 +465,18 @@ pub fn run_case(
         thorough,
         ..Default::default()
     };
+    let _ = take_panics();
     let r = guarded(sc.name, || (sc.run)(bytes, &mut ctx));
-    let r = match r {
+    let mut r = match r {
         Ok(r) => r,
         Err(v) => Err(v),
     };
+    let swallowed = take_panics();
+    if r.is_ok() && !ctx.allow_swallowed_panics {
+        if let Some(p) = swallowed.first() {
+            r = Err(Violation::new(panic_sig(p), format!("a panic occurred during the case and was swallowed (task boundary?): {p}")));
+        }
+    }
     // Known findings reported as the final result of a case are tolerated
     // too (counted), unless strict.
     let r = match r {
@@ -969,4 +991,37 @@ pub fn write_evidence(prop: &Prop, opts: &RunOpts, res: &RunResult, known_lines:
     let p = verif_root().join("evidence").join(format!("{}.json", prop.id));
     let _ = std::fs::create_dir_all(p.parent().unwrap());
     std::fs::write(&p, serde_json::to_string_pretty(&v).unwrap()).expect("write evidence");
+}
+
+
+//------------ Async helper ------------------------------------------------------
+
+/// Runs a future on a fresh single-threaded tokio runtime with the clock
+/// paused (virtual time: sleeps/timeouts advance instantly and
+/// deterministically when all tasks are idle).
+pub fn block_on_paused<F: std::future::Future>(fut: F) -> F::Output {
+    let rt = tokio::runtime::Builder::new_current_thread()
+        .enable_all()
+        .start_paused(true)
+        .build()
+        .expect("tokio runtime");
+    let out = rt.block_on(fut);
+    // dropping the runtime cancels every task that is still alive
+    drop(rt);
+    out
+}
+
+//------------ Fuzz entry ----------------------------------------------------------
+
+/// Entry point for coverage-guided targets (see /verif/fuzz): runs one
+/// sub-check on raw bytes; known findings are tolerated; anything else
+/// aborts with a VERIF-VIOLATION marker.
+pub fn fuzz_entry(props: &[Prop], prop_id: &str, sub: &str, data: &[u8], known: &Arc<Vec<KnownFinding>>) {
+    let prop = props.iter().find(|p| p.id == prop_id).expect("property");
+    let sc = prop.subchecks.iter().find(|s| s.name == sub).expect("subcheck");
+    let (_ctx, r) = run_case(prop.id, sc, data, known, false, true);
+    if let Err(v) = r {
+        eprintln!("VERIF-VIOLATION property={} sub={} sig={}\n{}", prop_id, sub, v.sig, v.detail);
+        std::process::abort();
+    }
 }
